@@ -45,6 +45,23 @@ def rng_int(rng, t):
     return x
 
 
+def sql_lit(t, cell):
+    """gen.sql_lit, plus decimals of negative scale (the text of unscaled * 10^-s)"""
+    if t.startswith("dec(") and cell != "N":
+        u, p, s = cell[1:].split("/")
+        if int(s) < 0:
+            return "cast('%d' as %s)" % (int(u) * 10 ** (-int(s)), gen.tinfo(t)[0])
+    return gen.sql_lit(t, cell)
+
+
+def insert_rows(name, cols, rows, chunk=200):
+    out = []
+    for i in range(0, len(rows), chunk):
+        vals = ", ".join("(" + ", ".join(sql_lit(t, c) for (_, t), c in zip(cols, r)) + ")" for r in rows[i:i + chunk])
+        out.append("insert into %s values %s" % (name, vals))
+    return out
+
+
 # ---------------------------------------------------------------- outcomes
 def stmt_outcome(res):
     if res is None:
@@ -111,7 +128,7 @@ class Job:
             nxt = e[i + 1] if i + 1 < len(e) else " "
             if ch in names and not (prev.isalnum() or prev == "_") and not (nxt.isalnum() or nxt == "_"):
                 k = names.index(ch)
-                out += gen.sql_lit(self.cols[k][1], tup[k])
+                out += sql_lit(self.cols[k][1], tup[k])
             else:
                 out += ch
             i += 1
@@ -280,7 +297,7 @@ def float_jobs(rng, tier):
                                   [v for v in ((1 << 53), (1 << 53) + 1, -(1 << 53) - 1, (1 << 53) - 1, (1 << 54) + 2, (1 << 62) + 1) if lo <= v <= hi]))
             jobs.append(Job("%s-%s" % (op, t), op, "float", [("a", t)], "%s(a)" % op, [("I%d" % v,) for v in vals],
                             ["intfn %s %d" % (op, v) for v in vals], {"int": True}))
-        for (p, s) in FLOAT_DEC_TYPES:
+        for (p, s) in (FLOAT_DEC_TYPES if op != "round" else []):      # round(decimal) is the decimal overload (round_jobs)
             t = "dec(%d,%d)" % (p, s)
             lim = 10 ** p - 1
             vals = set([0, 1, -1, lim, -lim, 10 ** s, -(10 ** s), 10 ** s + 1, 10 ** s - 1, -(10 ** s) - 1, 5 * 10 ** max(s - 1, 0),
@@ -328,7 +345,11 @@ def classify(job, tup, impl, spec):
         return None
     if job.kind == "float":
         v = int(tup[0][1:].split("/")[0])
-        return "float-routed-inexact" if abs(v) > (1 << 53) else None
+        # beyond 2^53 the cast to Float64 rounds the argument; abs of a decimal of scale > 22 divides by a power
+        # of ten that is itself rounded (1e23..1e38): the quotient can be one ulp off the nearest Float64
+        if abs(v) > (1 << 53) or (fn == "abs" and not job.info.get("int") and job.info.get("s", 0) > 22):
+            return "float-routed-inexact"
+        return None
     return None
 
 
@@ -413,7 +434,7 @@ def run_jobs(jobs, profile, gbin, gmodel, rng, tier, stats):
                 allok = not unsafe and bool(safe)
                 cols = [("id", "i32")] + j.cols
                 rows = [["I%d" % i] + list(j.tuples[i]) for i in range(len(j.tuples))]
-                base = [gen.create_table("t", cols)] + gen.insert_rows("t", cols, rows)
+                base = [gen.create_table("t", cols)] + insert_rows("t", cols, rows)
                 stmts = list(base)
                 stmts.append("select id, %s from t" % j.expr); items = [(len(stmts) - 1, "column", list(range(len(j.tuples))))]
                 if allok:
@@ -430,7 +451,7 @@ def run_jobs(jobs, profile, gbin, gmodel, rng, tier, stats):
                 continue
             cols = [("id", "i32")] + j.cols + [("ok", "bool")]
             rows = [["I%d" % i] + list(j.tuples[i]) + ["B%d" % (1 if is_ok[i] else 0)] for i in range(len(j.tuples))]
-            stmts = [gen.create_table("t", cols)] + gen.insert_rows("t", cols, rows, chunk=250)
+            stmts = [gen.create_table("t", cols)] + insert_rows("t", cols, rows, chunk=250)
             items = []
             stmts.append("create temp table s as select * from t where ok")
             stmts.append("select id, %s from s" % j.expr); items.append((len(stmts) - 1, "column", safe))
@@ -459,7 +480,7 @@ def run_jobs(jobs, profile, gbin, gmodel, rng, tier, stats):
         if ctx in ("literal", "literal-row"):
             return ["select " + j.lit_expr(tup)]
         cols = j.cols
-        st = [gen.create_table("t", cols)] + gen.insert_rows("t", cols, [list(tup)])
+        st = [gen.create_table("t", cols)] + insert_rows("t", cols, [list(tup)])
         if ctx == "where":
             return st + ["select %s from t where true" % j.expr]
         if ctx == "case":
@@ -574,6 +595,61 @@ def run_jobs(jobs, profile, gbin, gmodel, rng, tier, stats):
                              "stmts": stmts if len(stmts) < 8 else stmts[:2] + ["..."] + [stmts[k]]})
     return viol, known
 
+# ---------------------------------------------------------------- comparisons across integer types
+def stage_cmp(rng, tier, gbin, gmodel, stats):
+    """a < b ... a > b for operands of two (different) integer types against the comparison of the integers"""
+    names = list(INT_TYPES)
+    combos = [(x, y) for x in names for y in names if x != y]
+    must = [("i8", "u8"), ("u8", "i8"), ("i64", "u64"), ("u64", "i64"), ("i32", "u32"), ("i8", "i16"), ("u64", "i8"), ("i16", "u64")]
+    chosen = must + [c for c in rng.shuffle(combos) if c not in must][: (6 if tier == "quick" else len(combos))]
+    ops = ["<", "<=", "=", "<>", ">=", ">"]
+    cases, meta, lines = [], [], []
+    for (ta, tb) in chosen:
+        va = sorted(set(gen.int_pool(INT_TYPES[ta][0] // 8, INT_TYPES[ta][1] == "s") + [rng_int(rng, ta) for _ in range(4)]))
+        vb = sorted(set(gen.int_pool(INT_TYPES[tb][0] // 8, INT_TYPES[tb][1] == "s") + [rng_int(rng, tb) for _ in range(4)]))
+        if tier == "quick":
+            va, vb = va[:3] + rng.shuffle(va[3:])[:9], vb[:3] + rng.shuffle(vb[3:])[:9]
+        stmts = [gen.create_table("x", [("a", ta)]), gen.create_table("y", [("b", tb)])] + \
+            insert_rows("x", [("a", ta)], [["I%d" % v] for v in va]) + insert_rows("y", [("b", tb)], [["I%d" % v] for v in vb]) + \
+            ["select a, b, %s from x, y" % ", ".join("a %s b" % o for o in ops)]
+        lit = [(rng.choice(va), rng.choice(vb)) for _ in range(12)]
+        stmts.append("select " + ", ".join("%s %s %s" % (gen.sql_lit(ta, "I%d" % a), o, gen.sql_lit(tb, "I%d" % b)) for a, b in lit for o in ops))
+        cases.append({"id": "cmp-%s-%s" % (ta, tb), "mode": "det", "partitions": 1, "stmts": stmts, "timeout_s": 60})
+        meta.append((ta, tb, va, vb, lit, stmts))
+        lines += ["cmp %d %d" % (a, b) for a in va for b in vb] + ["cmp %d %d" % (a, b) for a, b in lit]
+    mout = common.run_model(gmodel, "numfn", lines)
+    real = common.run_harness(gbin, "sql", cases, timeout=600)
+    viol, pos = [], 0
+    for (ta, tb, va, vb, lit, stmts), r in zip(meta, real):
+        want = {}
+        for a in va:
+            for b in vb:
+                want[(a, b)] = mout[pos]; pos += 1
+        wlit = mout[pos:pos + len(lit)]; pos += len(lit)
+        o = case_stmt(r, -2, len(stmts))
+        o2 = case_stmt(r, -1, len(stmts))
+        if o[0] != "ok" or o2[0] != "ok":
+            viol.append({"kind": "comparison-statement-failed", "types": [ta, tb], "outcome": [list(o)[:2], list(o2)[:2]], "stmts": stmts[:2] + ["..."] + stmts[-2:]})
+            continue
+        for row in o[1]:
+            a, b = int(row[0][1:]), int(row[1][1:])
+            got = "".join("1" if c == "B1" else "0" if c == "B0" else "?" for c in row[2:])
+            stats["evaluations"] += 6
+            stats["distinct"].add(("cmp", ta, tb, want.get((a, b))))
+            if got != want.get((a, b)):
+                k = [i for i in range(6) if got[i] != (want.get((a, b)) or "??????")[i]][0]
+                viol.append({"kind": "comparison", "types": [ta, tb], "args": [a, b], "operator": ops[k], "engine": got, "definition": want.get((a, b)),
+                             "stmts": ["select %s %s %s" % (gen.sql_lit(ta, "I%d" % a), ops[k], gen.sql_lit(tb, "I%d" % b))]})
+        cells = o2[1][0]
+        for i, ((a, b), w) in enumerate(zip(lit, wlit)):
+            got = "".join("1" if c == "B1" else "0" if c == "B0" else "?" for c in cells[6 * i:6 * i + 6])
+            stats["evaluations"] += 6
+            if got != w:
+                k = [x for x in range(6) if got[x] != w[x]][0]
+                viol.append({"kind": "comparison", "context": "literal", "types": [ta, tb], "args": [a, b], "operator": ops[k], "engine": got, "definition": w,
+                             "stmts": ["select %s %s %s" % (gen.sql_lit(ta, "I%d" % a), ops[k], gen.sql_lit(tb, "I%d" % b))]})
+    return viol
+
 
 def run(ctx):
     t0 = time.time()
@@ -605,6 +681,7 @@ def run(ctx):
             e = known.setdefault(fid, {"count": 0, "example": d["example"]})
             e["count"] += d["count"]
         per_profile[profile] = {"jobs": len(jobs), "tuples": sum(len(j.tuples or []) for j in jobs)}
+    viol += stage_cmp(rng, tier, bins["dev"], gmodel, stats)
     listed = {e["id"]: e for e in common.known_findings()["known"] if e.get("property") == PID}
     for fid in sorted(known):
         d = known[fid]
@@ -642,7 +719,7 @@ def run(ctx):
                 "findings/C05num.json. gcd lcm & | xor: all 65 536 Int8 pairs (and UInt8 for the bitwise ones) built in the engine; << >> ~: all 256 "
                 "values x boundary counts; 16/32/64-bit and unsigned types: boundary-biased pairs; factorial -3..40 and the Int64 limits; round over a "
                 "(p,s) grid x digit counts incl. negative, >= s, +-128, i64 limits; abs sign ceil floor trunc round over all integer types and a decimal "
-                "grid, results compared by Float64 bit pattern. distinct = distinct (function, type, context, model class, definition class, profile).",
+                "grid, results compared by Float64 bit pattern; the six comparisons between operands of two different integer types (boundary pools, column and literal) against the comparison of the integers (definition only, no transcription of the implicit casts). distinct = distinct (function, type, context, model class, definition class, profile).",
         "samples": [known[k]["example"] for k in sorted(known)][:4],
         "profiles": per_profile, "batch_statements": stats["batch_statements"],
         "known_classes_reproduced": {k: v["count"] for k, v in known.items()},
